@@ -90,44 +90,82 @@ def check_elbo(inst, env, workdir):
             out.append("nifty.cl: reported mean %r, expected %r" % (float(st["elbo_mean"].asnumpy()), exp_mean))
     except Exception as e:
         out.append("nifty.cl raised %s: %s" % (type(e).__name__, str(e)[:140]))
+    # classic: saving the eigensystem, resuming from all / part of it, the analytic prior term
+    d = os.path.join(workdir, "eigcl")
+    shutil.rmtree(d, ignore_errors=True)
+    try:
+        es, _ = ift.estimate_evidence_lower_bound(cm.H, sl, 2, compute_all=True, verbose=False, output_directory=d)
+        judge("nifty.cl (saving the eigensystem)", [float(s_.asnumpy()) for s_ in es.iterator()])
+        vals = np.load(os.path.join(d, "metric_signal_eigenvalues.npy"))
+        vecs = np.load(os.path.join(d, "metric_signal_eigenvectors.npy"))
+        for k in (1, 2):
+            es, _ = ift.estimate_evidence_lower_bound(cm.H, sl, 2, compute_all=True, verbose=False, resume_eigenvectors=vecs[:, :k], resume_eigenvalues=vals[:k])
+            judge("nifty.cl (resumed with %d of 2 eigenpairs)" % k, [float(s_.asnumpy()) for s_ in es.iterator()])
+    except Exception as e:
+        out.append("nifty.cl save / resume raised %s: %s" % (type(e).__name__, str(e)[:140]))
+    finally:
+        shutil.rmtree(d, ignore_errors=True)
     return out
 
 
-def eig_traces(env):
-    """runs of the real _eigsh on a diagonal operator with the eigensolver wrapped from outside"""
-    ev = importlib.import_module("nifty.re.evidence_lower_bound")
+def _deflated(A, ev):
+    """number of eigenvectors projected out of the operator handed to the eigensolver (re: _ProjectedMetric; cl: projector @ M @ projector.T)"""
+    if hasattr(ev, "_ProjectedMetric") and isinstance(A, ev._ProjectedMetric):
+        return A.projector.eigenvectors.shape[1]
+    todo, seen = [A], 0
+    while todo and seen < 50:
+        seen += 1
+        x = todo.pop()
+        if isinstance(x, ev._Projector):
+            return x.eigenvectors.shape[1]
+        todo += list(getattr(x, "args", ()) or ()) if isinstance(getattr(x, "args", None), tuple) else []
+        if hasattr(x, "A"):
+            todo.append(x.A)
+    return 0
+
+
+def eig_traces(env, which="re"):
+    """runs of the real _eigsh on a diagonal operator with the eigensolver wrapped from outside (which: the JAX or the classic module)"""
+    ev = importlib.import_module("nifty.%s.evidence_lower_bound" % which)
     ssl = ev.ssl
     size = 10
     diag = 1. + 0.7 * np.arange(size, 0, -1)
-    linop = ssl.LinearOperator(shape=(size, size), dtype=np.float64, matvec=lambda x: diag * np.asarray(x).ravel())
+    if which == "re":
+        linop = ssl.LinearOperator(shape=(size, size), dtype=np.float64, matvec=lambda x: diag * np.asarray(x).ravel())
+    else:
+        import nifty.cl as ift
+        linop = ift.makeOp(ift.makeField(ift.UnstructuredDomain(size), diag))
     traces, metas, bad = [], [], []
     orig = ssl.eigsh
     for n in range(1, 7):
         for nb in range(1, 4):
-            for pre in range(0, n + 1):
+            for pre in range(0, n + 3):
                 evs = []
 
                 def rec(A, k=6, **kw):
-                    defl = A.projector.eigenvectors.shape[1] if isinstance(A, ev._ProjectedMetric) else 0
+                    defl = _deflated(A, ev)
                     evs.append(dict(ev="request", k=int(k), deflated=int(defl), found=0))
                     return orig(A, k=k, **kw)
                 ssl.eigsh = rec
                 try:
                     kw = {}
                     if pre:
-                        V = np.eye(size)[:, :pre]
-                        kw = dict(resume_eigenvectors=V, resume_eigenvalues=diag[:pre])
-                    vals, vecs = ev._eigsh(linop, size, n, tot_dofs=size - 1, n_batches=nb, early_stop=False, verbose=False, output_directory=None, **kw)
+                        V = np.eye(size)[:, :pre][:, ::-1]           # handed over in ascending order of the eigenvalues
+                        kw = dict(resume_eigenvectors=V, resume_eigenvalues=diag[:pre][::-1].copy())
+                    if which == "re":
+                        vals, vecs = ev._eigsh(linop, size, n, tot_dofs=size - 1, n_batches=nb, early_stop=False, verbose=False, output_directory=None, **kw)
+                    else:
+                        vals, vecs = ev._eigsh(linop, n, size - 1, np.float64, n_batches=nb, early_stop=False, verbose=False, output_directory=None, **kw)
                     evs.append(dict(ev="end", k=0, deflated=0, found=int(len(vals))))
                     if not np.allclose(np.sort(vals)[::-1], diag[:n], rtol=1e-8):
-                        bad.append("n=%d batches=%d resumed with %d: eigenvalues %s, the %d largest are %s" % (n, nb, pre, np.round(np.sort(vals)[::-1], 8).tolist(), n, diag[:n].tolist()))
+                        bad.append(("[nifty.%s] " % which) + "n=%d batches=%d resumed with %d: eigenvalues %s, the %d largest are %s" % (n, nb, pre, np.round(np.sort(vals)[::-1], 8).tolist(), n, diag[:n].tolist()))
                 except Exception as e:
-                    bad.append("n=%d batches=%d resumed with %d: _eigsh raised %s: %s" % (n, nb, pre, type(e).__name__, str(e)[:120]))
+                    bad.append(("[nifty.%s] " % which) + "n=%d batches=%d resumed with %d: _eigsh raised %s: %s" % (n, nb, pre, type(e).__name__, str(e)[:120]))
                     evs.append(dict(ev="end", k=0, deflated=0, found=-1))
                 finally:
                     ssl.eigsh = orig
                 traces.append([dict(ev="head", n=n, nb=nb, pre=pre, k=0, deflated=0, found=0)] + evs)
-                metas.append((n, nb, pre))
+                metas.append((n, nb, pre, which))
     return traces, metas, bad
 
 
@@ -187,6 +225,8 @@ def run(ctx):
                 for msg in check_elbo(inst, env, work):
                     ctx.violation(dict(kind="elbo", which=msg.split(":")[0][:40]), "R=%s ninv=%s d=%s: %s" % (inst["R"], [lg.rv(x) for x in inst["ninv"]], inst["d"], msg), replay=dict(model=inst))
             traces, metas, bad = eig_traces(env)
+            t2, m2, b2 = eig_traces(env, "cl")
+            traces, metas, bad = traces + t2, metas + m2, bad + b2
             mats = [("Dinv of %s" % m["R"], lg.mat(m["Dinv"])) for m in models[:6]] + [("diag(1..5)/2", np.diag(np.arange(1., 6.) / 2)), ("diag(3, 1/4, 7)", np.diag([3., .25, 7.])),
                                                                                            ("diagonal, dimension 16, condition 1e6", np.diag(np.logspace(-3, 3, 16))),
                                                                                            ("diagonal, dimension 24, condition 1e6", np.diag(np.logspace(0, 6, 24)))]
@@ -200,11 +240,11 @@ def run(ctx):
     tv = tracemod.validate(ctx, "EigBatchesTrace", traces, cfg="CONSTANTS MaxN = 7\nMaxB = 4\nSPECIFICATION TSpec\nCONSTRAINT Progress\nPOSTCONDITION Report\nINVARIANT NeverTooMany\n",
                            label="%d eigensolver request traces" % len(traces))
     for tid, l, clause in tv.propfail:
-        ctx.violation(dict(kind="eigsh-trace"), "n=%d batches=%d resumed with %d: event %d %r: %s" % (metas[tid] + (l, traces[tid][l - 1], clause)), replay=dict(trace=traces[tid]))
+        ctx.violation(dict(kind="eigsh-trace"), "n=%d batches=%d resumed with %d [nifty.%s]: event %d %r: %s" % (metas[tid] + (l, traces[tid][l - 1], clause)), replay=dict(trace=traces[tid]))
     pf = {t for t, _, _ in tv.propfail}
     for tid in tv.rejected:
         if tid not in pf:
-            ctx.violation(dict(kind="eigsh-schedule"), "n=%d batches=%d resumed with %d: request %d (%r) does not follow the batch schedule" % (metas[tid] + (tv.maxl[tid] + 1, traces[tid][tv.maxl[tid]])),
+            ctx.violation(dict(kind="eigsh-schedule"), "n=%d batches=%d resumed with %d [nifty.%s]: request %d (%r) does not follow the batch schedule" % (metas[tid] + (tv.maxl[tid] + 1, traces[tid][tv.maxl[tid]])),
                           replay=dict(trace=traces[tid]))
     for mt in metas:
         ctx.case(("eigsh",) + mt)
@@ -227,7 +267,7 @@ def replay(ctx, doc):
             elif c.get("what") == "lanczos":
                 msgs = check_lanczos(env, [("diag(1..5)/2", np.diag(np.arange(1., 6.) / 2))])
             else:
-                msgs = eig_traces(env)[2]
+                msgs = eig_traces(env)[2] + eig_traces(env, "cl")[2]
     finally:
         shutil.rmtree(work, ignore_errors=True)
     for m in msgs:
